@@ -364,11 +364,11 @@ String& String::trim(const char* chars)
     const char* p = start;
     const char* end = start + data->len;
     for(; p < end; ++p)
-      if(!strchr(chars, *p))
+      if(!*p || !strchr(chars, *p)) // strchr also finds the terminator of chars
         break;
     --end;
     for(; end > p; --end)
-      if(!strchr(chars, *end))
+      if(!*end || !strchr(chars, *end))
         break;
     ++end;
     size_t newLen = end - p;
